@@ -7,15 +7,18 @@ text extractor and the CMap parser, restricted to crate-local bodies.
     an integer parsed from the file (as_integer, str::parse, from_be_bytes, token payloads, fields
     assigned from those) must be dominated by a range check on that value or go through checked /
     saturating / wrapping arithmetic; products of type-bounded operands must fit the result type.
- R2 recursion: every call-graph cycle in scope contains a depth guard (guard object or a depth
-    parameter that is incremented and compared with a constant).
+ R2 recursion: every call-graph cycle in scope passes a *cut point* — a function in which a depth guard
+    (guard routine, counter field compared with a bound, in-progress set, bounded depth parameter)
+    dominates every call back into the cycle; the component minus its cut points must be acyclic. A
+    one-function cycle may instead be bounded by a type-tag exclusion.
  R3 reference-following loops: every loop in scope that loads indirect objects and is not driven by
     a finite iterator tests a visited set or a counter before each load.
  R4 scanner progress: every loop of the lexer, the content tokenizer, the CMap tokenizer and the
     recovery scanners advances its cursor (or consumes an element) on every path round the loop.
-    Reader-driven loops (a `read`/`read_line`-style call that reports a byte count, no finite iterator)
-    compare that count on every path back to the loop header: at end of input the read yields 0 bytes,
-    and a back path that never looks at the count spins forever.
+    Reader-driven loops (a `read`/`read_line`-style call that reports what it produced, no finite
+    iterator) are simulated at end of input — count 0, empty slice, emptied buffer — with
+    path-sensitive constant propagation: no back edge of the loop may remain reachable from the read
+    (otherwise a truncated file makes the loop spin forever).
  R5 decompression caps: no unbounded inflate anywhere; the limited reader's growth is dominated by
     its limit test (shared with C08-R5).
  R6 explicit panic sites (`unwrap`, `expect`, `panic!`, `unreachable!`, `assert!`) in scope are
